@@ -379,8 +379,8 @@ def lit(a) -> str:
             return 'duration("%s%ds")' % (sign, us // 10**6)
         if us < 10**6:
             return 'duration("%s%dus")' % (sign, us)
-        # the library parses duration text through floats: seconds and microseconds are spelled separately so both are exact
-        return '(duration("%s%ds") + duration("%s%dus"))' % (sign, us // 10**6, sign, us % 10**6)
+        # seconds with a six-digit fraction: duration text denotes exactly the number it spells (C11)
+        return 'duration("%s%d.%06ds")' % (sign, us // 10**6, us % 10**6)
     if t == "type":
         return a["v"]
     raise ValueError(a)
